@@ -48,6 +48,7 @@ pub fn from_repr_inner(ast: &DeriveInput) -> syn::Result<TokenStream> {
 
     let mut arms = Vec::new();
     let mut constant_defs = Vec::new();
+    let mut explicit_exprs = Vec::new();
     let mut has_additional_data = false;
     let mut prev_const_var_ident = None;
     for variant in variants {
@@ -79,7 +80,14 @@ pub fn from_repr_inner(ast: &DeriveInput) -> syn::Result<TokenStream> {
         let const_var_ident = format_ident!("{}", const_var_str);
 
         let const_val_expr = match &variant.discriminant {
-            Some((_, expr)) => discriminant_tokens(expr),
+            Some((_, expr)) => {
+                // The expression is evaluated in `explicit_discriminants` below,
+                // outside the scope of the `*_DISCRIMINANT` constants, so that it
+                // cannot name one of them by accident.
+                let index = explicit_exprs.len();
+                explicit_exprs.push(discriminant_tokens(expr));
+                quote! { __STRUM_EXPLICIT_DISCRIMINANTS[#index] }
+            }
             None => match &prev_const_var_ident {
                 Some(prev) => quote! { #prev + 1 },
                 None => quote! { 0 },
@@ -114,15 +122,27 @@ pub fn from_repr_inner(ast: &DeriveInput) -> syn::Result<TokenStream> {
         filter_by_rust_version(quote! { const })
     };
 
+    let explicit_discriminants = if explicit_exprs.is_empty() {
+        quote! {}
+    } else {
+        let len = explicit_exprs.len();
+        quote! {
+            const __STRUM_EXPLICIT_DISCRIMINANTS: [#discriminant_type; #len] = [#(#explicit_exprs),*];
+        }
+    };
+
     Ok(quote! {
         #[allow(clippy::use_self)]
         impl #impl_generics #name #ty_generics #where_clause {
             #[doc = "Try to create [Self] from the raw representation"]
             #[inline]
             #vis #const_if_possible fn from_repr(discriminant: #discriminant_type) -> Option<#name #ty_generics> {
-                #(#constant_defs)*
-                match discriminant {
-                    #(#arms),*
+                #explicit_discriminants
+                {
+                    #(#constant_defs)*
+                    match discriminant {
+                        #(#arms),*
+                    }
                 }
             }
         }
